@@ -87,7 +87,14 @@ def run(pid, tier, seed):
                       [(2019, 3, 1, 1, 2, 3), (2019, 11, 5, 1, 2, 3), (2020, 2, 29, 4, 5, 6), (2020, 3, 1, 0, 0, 1)],
                       # (a century year that IS a leap year, and the wrap into it)
                       [(1999, 12, 30, 10, 0, 0), (2000, 2, 27, 1, 0, 0), (2000, 2, 29, 12, 0, 0), (2000, 3, 1, 0, 0, 0)],
-                      [(2000, 2, 28, 23, 59, 59), (2000, 2, 29, 0, 0, 0), (2000, 12, 31, 23, 59, 59)]]
+                      [(2000, 2, 28, 23, 59, 59), (2000, 2, 29, 0, 0, 0), (2000, 12, 31, 23, 59, 59)],
+                      # (sparse logs: the messages either side of a New Year lie eleven to twelve months apart, in the SAME
+                      #  calendar month or with the later one in a later month -- the year still steps back between them)
+                      [(2020, 1, 20, 8, 0, 0), (2021, 1, 5, 8, 0, 0), (2021, 1, 6, 9, 0, 0)],
+                      [(2019, 12, 25, 1, 0, 0), (2020, 12, 3, 1, 0, 0), (2021, 11, 30, 1, 0, 0), (2021, 12, 1, 1, 0, 0)],
+                      [(2020, 6, 15, 12, 0, 0), (2021, 6, 1, 12, 0, 0)],
+                      [(2021, 3, 31, 23, 0, 0), (2022, 3, 1, 0, 0, 0), (2022, 3, 2, 0, 0, 0)],
+                      [(2022, 5, 9, 5, 5, 5), (2023, 5, 6, 5, 5, 4), (2024, 5, 3, 5, 5, 3)]]
             if fi < len(forced):
                 locs = [calendar.timegm(x + (0, 0, 0)) for x in forced[fi]]
                 wraps = 1
